@@ -181,6 +181,11 @@ class Driver(object):
         self.just_nested = None
         self.after_clear = None
         self.cycle = None
+        self.last_write = None
+        self.resubmit = False
+        self.story = None
+        self.script = []
+        self.did_nested = False
         self.fresh_n = 0
 
     def family_ok(self, lrus):
@@ -237,6 +242,93 @@ class Driver(object):
                 self.note(op)
                 return op
         self.after_clear = None
+        # the latest page / link submission sent again right after an unrelated webentity or rule edit:
+        # nothing new for the trie, but webentities may have to be created again
+        if self.resubmit and self.last_write is not None and rng.random() < self.profile.get("resubmit", 0.4):
+            self.resubmit = False
+            op = dict(self.last_write)
+            op.pop("text", None)
+            if self.family_ok(pages_of(op)):
+                return op
+        self.resubmit = False
+        # a site declared explicitly, then crawled, then its webentity deleted (the pages stay, the next
+        # submission of known pages has to create a webentity again)
+        if self.story is not None and rng.random() < self.profile.get("sitestory", 0.6):
+            stage, site = self.story
+            inside = [l for l in u.lrus if l.startswith(site) and l != site]
+            if stage == "links" and len(inside) >= 1:
+                self.story = ("delete", site)
+                a_, b_ = rng.choice(inside), rng.choice(inside + [site])
+                if rng.random() < 0.6:
+                    # the other end is the home page of ANOTHER site, often on the other scheme: its node is
+                    # where this site's scheme / www variations will have to be attached later
+                    h = u.host_prefix()
+                    if rng.random() < 0.6:
+                        h = (b"s:https|" + h[7:]) if h.startswith(b"s:http|") else \
+                            ((b"s:http|" + h[8:]) if h.startswith(b"s:https|") else h)
+                    if not h.startswith(site) and not site.startswith(h):
+                        a_, b_ = (h, a_) if rng.random() < 0.6 else (a_, h)
+                op = ({"op": "AddLinks", "pairs": [(a_, b_)] + ([(b_, a_)] if rng.random() < 0.4 else [])}
+                      if rng.random() < 0.6 else {"op": "IndexBatchCrawl", "data": [(a_, [b_])]})
+                if self.family_ok(pages_of(op)):
+                    self.note(op)
+                    return op
+            elif stage == "delete":
+                self.story = None
+                owner = [w for w, ps in we.items() if site in ps]
+                if owner:
+                    op = {"op": "DeleteWe", "id": owner[0], "ps": list(we[owner[0]])}
+                    self.note(op)
+                    return op
+        self.story = None
+        # the same story on a site nobody has seen yet (none of its scheme / www variations exists), linked
+        # from the home page of a known site of the same TLD on the other scheme
+        if self.script:
+            op = self.script.pop(0)(we)
+            if op is not None and self.family_ok(pages_of(op)):
+                self.note(op)
+                self.story = None
+                return op
+            self.script = []
+        elif self.default.get("k") == "never" and not self.did_nested and rng.random() < self.profile.get("nestedstory", 0.12):
+            # no automatic creation: paths first (unmarked), then a broad webentity, then a site declared with
+            # its nested variations on nodes that all exist already, then its bare prefix moved elsewhere
+            from impl import stems_of
+            st = stems_of(u.host_prefix())
+            if len(st) >= 3 and st[0] in (b"s:http|", b"s:https|") and st[1][:2] == b"h:" and st[2][:2] == b"h:":
+                self.did_nested = True
+                flip = b"s:https|" if st[0] == b"s:http|" else b"s:http|"
+                broad, bare = st[0] + st[1], st[0] + st[1] + st[2]
+                vs = [bare, flip + st[1] + st[2], bare + b"h:www|", flip + st[1] + st[2] + b"h:www|"]
+                pg = [v + rng.choice(u.paths[:3]) for v in vs]
+                tail = vs[1:]
+                rng.shuffle(tail)
+
+                def move(we_, bare=bare, broad=broad):
+                    own = [w for w, ps in we_.items() if bare in ps]
+                    to = [w for w, ps in we_.items() if broad in ps]
+                    return {"op": "MovePrefix", "p": bare, "to": to[0], "frm": rng.choice([0, own[0]])} \
+                        if own and to and own[0] != to[0] else None
+                self.script = [lambda we_: {"op": "AddPages", "ls": pg, "cr": False},
+                               lambda we_: {"op": "CreateWe", "ps": [broad]},
+                               lambda we_: {"op": "CreateWe", "ps": [bare] + tail}, move]
+        elif rng.random() < self.profile.get("freshsite", 0.05):
+            from impl import stems_of
+            st = stems_of(u.host_prefix())
+            if len(st) >= 3 and st[0] in (b"s:http|", b"s:https|") and st[1][:2] == b"h:" and st[2][:2] == b"h:":
+                self.fresh_n += 1
+                flip = b"s:https|" if st[0] == b"s:http|" else b"s:http|"
+                site = st[0] + st[1] + (b"h:%s%d|" % (rng.choice([b"aa", b"zz", b"m"]), self.fresh_n))
+                home = flip + st[1] + st[2]
+                page = site + rng.choice(u.paths)
+                link = {"op": "AddLinks", "pairs": [(home, page)] if rng.random() < 0.7 else [(page, home)]}
+
+                def delete(we_, site=site):
+                    owner = [w for w, ps in we_.items() if site in ps]
+                    return {"op": "DeleteWe", "id": owner[0], "ps": list(we_[owner[0]])} if owner else None
+                self.script = [lambda we_: {"op": "CreateWe", "ps": [site]}, lambda we_: dict(link), delete,
+                               lambda we_: dict(link),
+                               lambda we_: {"op": "AddPage", "l": flip + site[len(st[0]):], "cr": False}]
         # rule replaced on an anchor that is edited in between: remove the rule, edit the webentity that
         # holds the anchor itself (or attach the anchor to one), declare a rule on the anchor again
         if self.cycle is not None and rng.random() < self.profile.get("rulecycle", 0.7):
@@ -258,7 +350,10 @@ class Driver(object):
                 self.cycle = ("readd", a)
                 owner = [w for w, ps in we.items() if a in ps]
                 r = rng.random()
-                if owner and r < 0.35:
+                below = [a + x for x in rng.sample(u.paths[:4], 2)]
+                if rng.random() < 0.3 and self.family_ok(below):
+                    op = {"op": "AddPages", "ls": below, "cr": rng.random() < 0.5}     # new nodes beneath the anchor
+                elif owner and r < 0.35:
                     op = {"op": "DeleteWe", "id": owner[0], "ps": list(we[owner[0]])}
                 elif owner and r < 0.55:
                     op = {"op": "RemovePrefix", "p": a, "id": owner[0]}
@@ -334,6 +429,12 @@ class Driver(object):
 
     def note(self, op):
         n = op["op"]
+        if n == "CreateWe" and len(op["ps"]) == 1 and self.story is None:
+            self.story = ("links", op["ps"][0])
+        if n in ("AddLinks", "AddPages", "IndexBatchCrawl", "AddPage"):
+            self.last_write = op
+        elif n in ("DeleteWe", "RemovePrefix", "MovePrefix", "RemoveRule", "DeleteWeNC"):
+            self.resubmit = True
         if n in ("CreateWe", "AddPrefix"):
             from impl import stems_of
             p = op["ps"][0] if n == "CreateWe" else op.get("p", b"")
@@ -457,6 +558,15 @@ class Driver(object):
         if name == "CreateWe":
             p = u.host_prefix() if rng.random() < 0.6 else u.prefix()
             ps = [p]
+            if rng.random() < self.profile.get("variationset", 0.25):
+                # the usual call: a site declared with its scheme / www variations (nested prefixes), any order
+                from impl import stems_of
+                st = stems_of(p)
+                if st and st[0] in (b"s:http|", b"s:https|") and len(st) >= 2 and st[-1][:2] == b"h:":
+                    base = st[1:-1] if st[-1] == b"h:www|" else st[1:]
+                    vs = [b"".join([sc] + base + w) for sc in (b"s:http|", b"s:https|") for w in ([], [b"h:www|"])]
+                    rng.shuffle(vs)
+                    return {"op": name, "ps": vs[:rng.choice([2, 3, 4, 4])]}
             if rng.random() < 0.4:
                 q = u.host_prefix()
                 if q not in ps:
